@@ -153,7 +153,7 @@ func c10HardCert(c *Ctx, m *shimModel) {
 			c.Check(okNil && noEffect, "R1.hardcert", "AddHardCert|re-adding is a no-op", w.Pos(r.Pos()), "returns nil before touching the agent", "adding an already present hardware certificate is not a pure no-op")
 		}
 		for _, lf := range w.Leaves(r.Results[0], r) {
-			if ex := w.Expr(lf.Val); strings.HasPrefix(ex, "global:"+RepoMod+"/"+shimPkg+".") && !f.Any(b, func(l Lit) bool { v, ok := m.lockedLit(l); return ok && v }) {
+			if ex := w.Expr(lf.Val); strings.HasPrefix(ex, "global:"+RepoMod+"/"+shimPkg+".") && InstrDominates(list, r) && !f.Any(b, func(l Lit) bool { v, ok := m.lockedLit(l); return ok && v }) {
 				nAbsent++
 				// reached only after the whole listing was scanned
 				done := f.Any(b, func(l Lit) bool {
